@@ -401,3 +401,40 @@ PROPS["C08"] = dict(
                guard={"quick": 1200, "thorough": 10800})],
     min_class_fraction={"pipeline_not_consumed": 0.08, "failing_element_behind_window": 0.2, "counter_ran_on_worker_goroutines": 0.02, "demand_exact": 0.3},
 )
+
+
+PROPS["C05"] = dict(
+    pkg="c05",
+    replay_isolated=True,
+    level="fault_enumeration",
+    rule=("fault matrix: a fault source is placed into a context and optionally wrapped in try .. catch 77. Sources: every binary operator on "
+          "every ordered pair of 34 boundary values (0, +-1, 2, 63, 64, -64, min/max int, +-0.0, 1.5, -2.5, +-Inf, NaN, 1e300, '', 'a', '12', "
+          "true, false, [], [1], [1,'a'], [[1]], a lazy list, {}, {a:1}, a map holding a closure, closures of 1, 2 and 3 parameters, a "
+          "closure that fails) - exhaustively (TestMatrix, 8 cheap contexts x try/no try) and sampled in all contexts; unary operators; "
+          "every static function with 0..4 boundary arguments (incl. random(0), min(), sprintf, bisection, createLowPass); every list, map, "
+          "string and closure method name on every receiver with 0..3 boundary arguments (misuse of every kind); index, member access and "
+          "calls on every value; the host function boom() that panics with an error value, a string or a nil dereference; runaway recursion "
+          "that grows the value stack. Contexts: top level, inside a closure, a sequential map/accept, a forced-parallel map/accept (fault "
+          "at element 20, workers from element 12), the stage behind a parallel map (collector goroutine), a merge operand, the merge "
+          "comparator, a multiUse consumer and its source, the key/compare closures of order and orderLess, reduce, a map literal, a switch "
+          "case, nested try, and a lazy result that the host forces after Eval returned; GOMAXPROCS from {1,2,4,16}; optimizer on/off. "
+          "Oracle: the process survives (a death is attributed through the pending-case file and confirmed in isolation), the evaluation "
+          "call does not panic, forcing a lazy result delivers language-level faults as errors, and the outcome equals the reference "
+          "interpreter's: an error when the sub-term faults, the catch value when wrapped in try. Non-trivial: the reference raised the "
+          "fault (or the try wrapper caught it); distinct = case."),
+    assumptions=["a panic of the host's own function boom() inside a lazily returned stage that the host forces after Eval is outside 'during evaluation'",
+                 "lists of 2^63 elements that get materialised exhaust the memory: kept out by construction, not a fault the property speaks about",
+                 "sprintf, bisection, createLowPass, binning and random are checked for crash freedom only"],
+    jobs=[
+        dict(name="c05", run="^TestPropC05$", kind="rapid", shards=16, checks={"quick": 80000, "thorough": 2000000}, mem_gb=16,
+             guard={"quick": 1200, "thorough": 10800}),
+        dict(name="matrix", run="^TestMatrix$", kind="plain", shards=16, exhaustive=True, mem_gb=16, guard={"quick": 1200, "thorough": 3600}),
+        dict(name="known_F6", run="^TestKnownF6$", kind="plain", shards=1, expect_known="F6", death_signature="stack overflow",
+             guard={"quick": 300, "thorough": 300}),
+    ],
+    min_class_fraction={"fault_raised": 0.3, "closure_ran_on_another_goroutine": 0.015, "context_parMap": 0.005, "context_mergeOperand": 0.02,
+                        "context_multiUseConsumer": 0.02, "wrapped_in_try": 0.3},
+    exhaustive_claim={"quick": ["matrix"], "thorough": ["matrix"]},
+    exhaustive_scope={"quick": "every binary operator x every ordered pair of 34 boundary values, every unary operator and every fixed-arity static function x every boundary value, each in 8 contexts with and without try",
+                      "thorough": "every binary operator x every ordered pair of 34 boundary values, every unary operator and every fixed-arity static function x every boundary value, each in 8 contexts with and without try"},
+)
